@@ -106,20 +106,24 @@ Theorem C16_tri_given_triangle_is_a_face : In (0, 1, 2)%nat tri_prism_faces /\ I
 Proof. exact tri_base_faces. Qed.
 
 (* ---- flattened return value = vertices[faces] ------------------------------------------------------------------- *)
-(* in general: row k of the flattened array is the coordinate triple of face k (tri_at = rows at the three indices) *)
-Theorem C16_flatten_rows : forall (vs : list (vec3 R)) fs k,
-  nth_error (flatten vs fs) k = option_map (tri_at vs) (nth_error fs k).
-Proof. exact flatten_rows. Qed.
-
 (* ================================================================================================================ *)
 (* definitional: pins the shape of the model; the content is carried by the traced ties / correspondence             *)
 (*   - flattened = vertices[faces]: the flat model is DEFINED as `flatten vertices faces`; what these two theorems add is  *)
 (*     only that every index is in range (every row is Some).  That the CODE's flattened output is this list is proved on *)
 (*     every run by the traced lemmas T_rect_flat_ok / T_tri_flat_ok, and the oracle checks flat == vertices[faces]        *)
 (*     exactly on every sampled case.                                                                                       *)
-(*   - non-float rejected: holds by the `match` of the model; that the CODE raises ValueError exactly for non-floats is    *)
-(*     tied by the concrete traced kernels cube_rejects_int / tri_rejects_int, by correspondence and by the oracle.        *)
+(*   - flatten_rows is the general `nth_error (map f l)` fact, true of any tables.                                        *)
+(*   - non-float rejected: holds by the `match` of the model.  That the CODE raises ValueError exactly for non-floats is  *)
+(*     checked (a) at trace time by the concrete kernels cube_rejects_int/_float32, tri_rejects_int/_float32,             *)
+(*     cube_accepts_float, tri_accepts_float: the real functions are called on concrete arguments WITHOUT the isinstance  *)
+(*     shadowing and the driver compares the observed outcome with expect_structure in Python, fail-closed (their Coq     *)
+(*     lemmas only restate the model's outcome; this is a concrete trace-time test, not a proved tie); (b) by the          *)
+(*     correspondence on int / np.int64 / np.float32 / bool / str / None / np.float64 arguments; (c) by the oracle.        *)
 (* ================================================================================================================ *)
+Theorem C16_flatten_rows : forall (vs : list (vec3 R)) fs k,
+  nth_error (flatten vs fs) k = option_map (tri_at vs) (nth_error fs k).
+Proof. exact flatten_rows. Qed.
+
 Theorem C16_flattened_is_take : forall origin size,
   rectangular_prism_flat ROps origin size = map (tri_at (rect_prism_vertices ROps origin size)) rect_prism_faces /\
   forallb is_some (rectangular_prism_flat ROps origin size) = true.
